@@ -39,12 +39,14 @@ PROPS = {
     'C03': dict(quick=dict(profiles=[seq('C03', 64, 24)]), thorough=dict(profiles=[seq('C03', 1600, 40)])),
     'C04': dict(quick=dict(profiles=[seq('C04', 160, 30)]), thorough=dict(profiles=[seq('C04', 3200, 60)])),
     'C05': dict(quick=dict(profiles=[prof('crash', 48, 10)]), thorough=dict(profiles=[prof('crash', 320, 112)]),
+                viol_line_regex=r'^VIOL \d+ \S+ (?!loss\.img)',
                 rule="workloads of publish (with rollover), delete in reader and head segments (rebasing, emptying, tail), sync, close and reopen with "
                      "Recover / eager migration; the FS tap snapshots the directory after every file-system mutation (crash image) and, for every append, "
                      "torn variants (every byte in thorough); sampled images are crashed again inside their recovery (depth 2); each image is opened with "
                      "the real Open(Recover) and observed (scan, NextOffset, Get of every offset, key/time lookups, Stat, recover-again, append+Check); a "
                      "case is one image, distinct by its description line, non-trivial when the operation in flight is a publish or a delete"),
     'C06': dict(quick=dict(profiles=[prof('crash', 48, 10)]), thorough=dict(profiles=[prof('crash', 320, 112)]),
+                viol_line_regex=r'^VIOL \d+ \S+ (?!crash\.img)',
                 rule="same workloads; the tap tracks the fsynced length of every file (renames carry it); after every operation power-loss images cut "
                      "files back to lengths between fsynced and current (all files at once, each single file at sampled / every length, random vectors; "
                      "8-byte headers atomic); a case is one loss image, non-trivial when at least one file is actually cut"),
